@@ -73,18 +73,85 @@ func ruleC16Cap(cx *Ctx) {
 		})
 		return ok && n >= 2
 	}
+	// sameMask: a is the mask x - or, with x == nil (a caller of the slow path), a value read from producerMask
+	sameMask := func(a, x ssa.Value) bool {
+		if x != nil {
+			return a == x
+		}
+		seen := map[ssa.Value]bool{}
+		var fromPM func(v ssa.Value) bool
+		fromPM = func(v ssa.Value) bool {
+			if seen[v] {
+				return false
+			}
+			seen[v] = true
+			if atomicFieldLoad(v, pm) {
+				return true
+			}
+			switch y := v.(type) {
+			case *ssa.Phi:
+				for _, e := range y.Edges {
+					if fromPM(e) {
+						return true
+					}
+				}
+			case *ssa.UnOp:
+				if al, ok := y.X.(*ssa.Alloc); ok && y.Op == token.MUL {
+					for _, r := range *al.Referrers() {
+						if st, ok := r.(*ssa.Store); ok && st.Addr == ssa.Value(al) && fromPM(st.Val) {
+							return true
+						}
+					}
+				}
+			}
+			return false
+		}
+		return fromPM(a)
+	}
 	var capOf func(v ssa.Value, x ssa.Value, depth int) (bool, string)
 	capOf = func(v ssa.Value, x ssa.Value, depth int) (bool, string) {
 		switch c := v.(type) {
+		case *ssa.Parameter:
+			// the capacity is handed in by the callers of the slow path: each of them computes cap(mask it read)
+			if depth > 0 || c.Parent() != slow {
+				return false, "the capacity is a parameter"
+			}
+			pi, n := -1, 0
+			for i, q := range slow.Params {
+				if q == c {
+					pi = i
+				}
+			}
+			for _, f := range cx.P.FuncsOfPkg(queuePkg) {
+				bad := ""
+				allInstrs(f, func(in ssa.Instruction) {
+					if !isCallTo(in, slow) {
+						return
+					}
+					n++
+					cc := callCommon(in)
+					if pi < 0 || pi >= len(cc.Args) {
+						bad = "unrecognised call"
+						return
+					}
+					if ok, why := capOf(cc.Args[pi], nil, 1); !ok {
+						bad = cx.P.where(in) + ": " + why
+					}
+				})
+				if bad != "" {
+					return false, bad
+				}
+			}
+			return n > 0, "no caller of the slow path"
 		case *ssa.Call:
 			if g := calleeOf(c); g != nil && g.Pkg != nil && len(origin(g).Blocks) > 0 && !isStdMethod(c, "sync/atomic", "", "Load") {
 				a := c.Call.Args
-				if len(a) == 2 && a[1] == x && capFn(g) {
+				if len(a) == 2 && sameMask(a[1], x) && capFn(g) {
 					return true, ""
 				}
 				return false, "the capacity is computed by " + funcName(g) + ", which is not cap(mask)"
 			}
-			if isStdMethod(c, "sync/atomic", "", "Load") && depth == 0 {
+			if isStdMethod(c, "sync/atomic", "", "Load") && depth == 0 && x != nil {
 				f := recvField(c)
 				if f == nil {
 					return false, "capacity loaded from an unknown place"
